@@ -6,6 +6,8 @@
        stress mixes over table-respecting operations must be report-free. *)
 let str (cs : n list) : string = String.concat "" (List.map (fun c -> String.make 1 (Char.chr (int_of_n c))) cs)
 
+let us (s : string) : string = String.map (fun c -> if c = ' ' then '_' else c) s
+
 let has_acc (field : string) (fn : string) : bool =
   List.exists (fun ((v, fs), _) -> (v = RowKnown || v = RowNew) && (match List.map str fs with
       | [f; g] -> f = field && g = fn | _ -> false)) x_acc_rows
@@ -21,6 +23,20 @@ let () =
         Printf.printf "SPEC-VIOLATION case=table sig=lockset:%s@%s:%s access without the guard of the field\n" f g (if w then "w" else "r")
       | RowBenign, [f; g] -> Printf.printf "NOTE benign lock-set exception %s@%s:%s\n" f g (if w then "w" else "r")
       | _ -> ()) x_acc_rows;
+    List.iter (fun (v, fs) ->
+      incr rows;
+      match v, List.map str fs with
+      | (RowKnown | RowNew), [f; k; c] ->
+        Printf.printf "SPEC-VIOLATION case=table sig=shared-path:%s:%s %s into %s\n" f (us k) k c
+      | RowBenign, [f; k; _] -> Printf.printf "NOTE benign shared-path exception %s:%s\n" f k
+      | _ -> ()) x_shared_rows;
+    List.iter (fun (v, fs) ->
+      incr rows;
+      match v, List.map str fs with
+      | (RowKnown | RowNew), [g; h; k] ->
+        Printf.printf "SPEC-VIOLATION case=table sig=unjoined-goroutine:%s@%s:%s the function addresses the goroutine without waiting for it\n" g h k
+      | RowBenign, [g; h; k] -> Printf.printf "NOTE benign goroutine-join exception %s@%s:%s\n" g h k
+      | _ -> ()) x_join_rows;
     List.iter (fun f ->
       Printf.printf "SPEC-VIOLATION case=table sig=unclassified-field:%s written after publication, neither guarded nor listed as goroutine-confined\n" (str f))
       x_unclassified
